@@ -31,6 +31,12 @@ CHECKS = {
              text="One kernel step with all internal randomness symbolic: the rejected result is the input trace term-for-term; the proposed trace equals the reference proposal (regenerate-from-prior with site laws for mh; x + step^2/2 grad + step*eps with one N(0,1) draw per COORDINATE for mala; L leapfrog steps from fresh per-coordinate momentum for hmc) and is coherent; the applied log acceptance threshold equals min(0, log MH ratio) of that proposal, including the mixture-indicator branch switch. Detailed balance is then the MH theorem.", ref="3 C09"),
  "C10": dict(technique="Jaxpr-to-SMT encoding of init/extend/change/rejuvenate/log_marginal_likelihood/estimate/rejuvenation_smc from a symbolic particle collection (z3), per-particle weight identity against reference densities",
              text="Each SMC move is traced on a symbolic collection (arbitrary weights, arbitrary coherent vectorised trace): per particle, the new trace is coherent and holds the observation, the log weight equals old weight + log p(choices, obs) - log q(proposed choices) for the model's own proposal and for user-supplied init/extension proposals, proposed values are N distinct draws with the right parameters, rejuvenation leaves weights untouched, log_marginal_likelihood and estimate have their closed forms (log-domain), and rejuvenation_smc (cond + scan) equals the hand composition step by step. Unbiasedness of the evidence is the corollary.", ref="3 C10"),
+ "C05": dict(technique="induction over the coherent-trace invariant (Jaxpr-to-SMT, z3) + explicit 2-3 operation compositions traced as one IR from a symbolic coherent start",
+             text="Histories of any length are covered by induction: every operation maps an arbitrary coherent trace to a coherent trace (C03/C04/C09/C12 obligations plus, here, symbolic-index indexing of vectorised traces and jit round trips: same treedef, same leaf terms). As an independent cross-check, update -> regenerate -> mh compositions from a symbolic start stay coherent, never-selected addresses hold their original value, and chained update weights telescope.", ref="3 C05"),
+ "C18": dict(technique="Jaxpr-to-SMT encoding of chain(kernel) for the (burn_in, thin) grid on shared outcome variables; IR equality queries (z3)",
+             text="For every (burn_in, thin) with a non-empty result, the traces and accepts returned equal the slice [burn_in::thin] of the un-thinned run leaf by leaf on the same outcome variables; the un-thinned run equals the hand-iterated kernel state by state with accepts[i] the kernel's decision; acceptance_rate == mean(accepts); n_steps counts retained states; with n_chains=2 every leaf has a leading chain axis, each lane equals the single-chain IR on its own (distinct) outcome variables.", ref="3 C18"),
+ "C19": dict(technique="Jaxpr-to-SMT encoding of state(f) vs f and vs a recorder twin (z3 equality queries for all inputs); CrossHair on the namespace-dict helpers",
+             text="For 12 generated programs (repeated names, nested namespaces, scans incl. nested and with namespaces around/inside, vmap/modular_vmap, scan inside vmap, multi-value tag_state, leaf-mode save) state(f) returns f's result and a dictionary with exactly the reference names/nesting and leaf-wise equal values for all inputs, also under jit and seed.", ref="3 C19"),
 }
 NA = {}
 
